@@ -4,12 +4,16 @@ import (
 	"encoding/json"
 	"fmt"
 	"os"
+	"path/filepath"
 	"runtime"
 	"sort"
 	"strconv"
 	"sync"
 	"time"
 
+	"github.com/FollowTheProcess/spok/parser"
+
+	"verifharness/internal/bin"
 	"verifharness/internal/ev"
 	"verifharness/internal/lang"
 	"verifharness/internal/pool"
@@ -288,6 +292,11 @@ func langCheck(prop, tier string) int {
 		total.Outcomes["shard-abandoned-after-200-crashes"]++
 		mu.Unlock()
 	})
+	if prop == "C07" {
+		n, loaded := c07Binary(run)
+		run.Set("binary_fmt_invocations", n)
+		run.Set("binary_fmt_rewrites_checked", loaded)
+	}
 	if prop == "C08" {
 		if f := os.Getenv("VERIF_C08_SCHED"); f != "" {
 			var sp struct {
@@ -441,3 +450,58 @@ func replay(path string) int {
 	defer pool.Cleanup()
 	return fn(path)
 }
+
+// c07Binary: the formatter as the user reaches it. `spok --fmt` parses, LOADS the file
+// (evaluating builtins, building tasks) and then prints the tree; anything the load
+// step does to the tree shows up here and nowhere else. For every pair of reduced
+// statements plus a few hand-written files: run `spok --fmt` on it in a sandbox and
+// apply C07's oracle to (text before, file after).
+func c07Binary(run *ev.Run) (int64, int64) {
+	var texts []string
+	texts = append(texts, lang.CanonicalBases(lang.ReducedStatements(false), 1, 0)...)
+	texts = append(texts, lang.CanonicalBases(lang.ReducedStatements(false), 2, 0)...)
+	texts = append(texts,
+		"BIN := \"bin/x\"\n# Builds\ntask build(lint, \"**/*.go\", \"go.mod\") -> (BIN, \"build.log\") {\n    go build ./...\n}\n\ntask lint(\"**/*.go\") {\n    echo lint\n}\n",
+		"OUT := join(\"a\", \"b\")\ntask a(b, \"x\", c, \"y\") -> (\"o\", OUT, \"p\") { echo {{.OUT}} }\ntask b() {}\ntask c() {}\n",
+		"V := exec(\"echo hi\")\nW := \"w\"\ntask t(\"*.md\", u) -> W {\n    echo {{.V}} {{.W}}\n}\ntask u(\"a\", \"b\", \"c\", \"d\") {}\n",
+	)
+	var mu sync.Mutex
+	var n, rewritten int64
+	pool.Parallel(len(texts), func(i int) {
+		root := filepath.Join(pool.Scratch, fmt.Sprintf("c07bin.%d", i%64))
+		c07SlotMu[i%64].Lock()
+		defer c07SlotMu[i%64].Unlock()
+		t := bin.Tree{Root: root}
+		t.Reset()
+		proj := t.Mkdir("home/w/proj")
+		path := t.File("home/w/proj/spokfile", texts[i])
+		o := bin.Run(proj, filepath.Join(root, "home"), nil, "--fmt")
+		mu.Lock()
+		n++
+		mu.Unlock()
+		if o.Died() {
+			run.Report(ev.Violation{Key: "fmt-binary " + strconv.Quote(texts[i]), Class: "process-crash", What: fmt.Sprintf("spok --fmt died on %s: %s", strconv.Quote(texts[i]), firstLines(o.Stderr, 3)), Case: map[string]any{"input": texts[i]}})
+			return
+		}
+		after, _ := os.ReadFile(path)
+		if o.Exit != 0 || string(after) == texts[i] {
+			return // did not load (C19 checks it stays untouched) or already canonical
+		}
+		mu.Lock()
+		rewritten++
+		mu.Unlock()
+		t1, e1 := parser.New(texts[i]).Parse()
+		if e1 != nil {
+			return
+		}
+		t2, e2 := parser.New(string(after)).Parse()
+		v := lang.CheckC07(lang.FmtResult{Parsed: true, T1: t1, S1: string(after), T2: t2, Err2: e2})
+		if v != nil {
+			run.Report(ev.Violation{Engine: "langmc-c07bin", Key: "fmt-binary " + strconv.Quote(texts[i]), Class: v.Class + "-through-spok-fmt",
+				What: fmt.Sprintf("`spok --fmt` on %s wrote %s: %s", strconv.Quote(texts[i]), strconv.Quote(string(after)), v.What), Case: map[string]any{"input": texts[i]}})
+		}
+	})
+	return n, rewritten
+}
+
+var c07SlotMu [64]sync.Mutex
